@@ -1,4 +1,5 @@
 import JoblibProofs.Lemmas.HashStream
+import JoblibProofs.Lemmas.HashDecode
 /-!
 # C08 — joblib.hash is a deterministic, order-insensitive, type-discriminating digest
 
@@ -23,8 +24,20 @@ at all (the model's `str` has no identity: `Hasher.memoize` skips str/bytes, che
 correspondence with shared and distinct string objects).  Aliased tuples/containers are outside
 the universe (property statement).
 
-Hypothesis used: `KeysStrict H (depth v) v` — at every dict/set/frozenset node the things
-`sorted` is applied to are pairwise comparable and pairwise different; see its doc comment.
+Hypotheses used
+* determinism theorems: `KeysStrict H (depth v) v` — at every dict/set/frozenset node the things
+  `sorted` is applied to are pairwise comparable and pairwise different (see its doc comment: true
+  of every real Python value unless two keys of one container have colliding digests);
+* injectivity theorems: `Plain (depth v) v` — no node of the value takes the digest fallback, and
+  nothing exceeds a 4-byte length field — and `memoCount H v ≤ 2^32` (beyond either bound the real
+  pickler raises instead of producing a stream).
+
+FULL STATEMENT of the discrimination half: for ALL values of the universe, `encode H v = encode H w`
+only if `v` and `w` are the same value.  It is FALSE on the digest-fallback path (F12, proved
+below as `fallback_collision_counterexample`, a known finding); what is proved is
+`encode_injective_partial`: the full statement for all values that never take the fallback.
+Injectivity is proved through a decoder: a stack machine for the emitted pickle opcodes
+(`Lemmas/HashDecode.lean`) that runs `encode H v` to the canonical listing of `v`, and is deterministic.
 -/
 namespace C08
 open JoblibModel.HashStream
@@ -38,55 +51,6 @@ theorem encode_perm_invariant (H : Bs → Bs) (v w : PyVal) (h : Reorder v w)
     (hk : KeysStrict H (depth v) v) : encode H v = encode H w := by
   unfold encode encodeV
   rw [← h.depth_eq, encF_reorder H _ v w _ h hk]
-
-mutual
-/-- The value as another interpreter sees it: every set and frozenset iterates in the order
-`iter` (a function of the string-hash seed and of the hash table's history) puts its elements. -/
-def reiter (iter : List PyVal → List PyVal) : PyVal → PyVal
-  | .list l => .list (reiterL iter l)
-  | .tuple l => .tuple (reiterL iter l)
-  | .set l => .set (iter (reiterL iter l))
-  | .frozenset l => .frozenset (iter (reiterL iter l))
-  | .dict l => .dict (reiterD iter l)
-  | .none => .none
-  | .bool b => .bool b
-  | .int i => .int i
-  | .float x => .float x
-  | .str s => .str s
-  | .bytes s => .bytes s
-def reiterL (iter : List PyVal → List PyVal) : List PyVal → List PyVal
-  | [] => []
-  | x :: xs => reiter iter x :: reiterL iter xs
-def reiterD (iter : List PyVal → List PyVal) : List (PyVal × PyVal) → List (PyVal × PyVal)
-  | [] => []
-  | (k, v) :: xs => (reiter iter k, reiter iter v) :: reiterD iter xs
-end
-
-mutual
-theorem reorder_reiter (iter : List PyVal → List PyVal) (hit : ∀ l, (iter l).Perm l) :
-    ∀ v : PyVal, Reorder v (reiter iter v)
-  | .list l => by simp only [reiter]; exact .list (reorderL_reiter iter hit l)
-  | .tuple l => by simp only [reiter]; exact .tuple (reorderL_reiter iter hit l)
-  | .set l => by simp only [reiter]; exact .set (reorderL_reiter iter hit l) (hit _).symm
-  | .frozenset l => by simp only [reiter]; exact .frozenset (reorderL_reiter iter hit l) (hit _).symm
-  | .dict l => by simp only [reiter]; exact .dict (reorderD_reiter iter hit l) (List.Perm.refl _)
-  | .none => .none
-  | .bool b => .bool b
-  | .int i => .int i
-  | .float x => .float x
-  | .str s => .str s
-  | .bytes s => .bytes s
-theorem reorderL_reiter (iter : List PyVal → List PyVal) (hit : ∀ l, (iter l).Perm l) :
-    ∀ l : List PyVal, ReorderL l (reiterL iter l)
-  | [] => .nil
-  | x :: xs => by simp only [reiterL]; exact .cons (reorder_reiter iter hit x) (reorderL_reiter iter hit xs)
-theorem reorderD_reiter (iter : List PyVal → List PyVal) (hit : ∀ l, (iter l).Perm l) :
-    ∀ l : List (PyVal × PyVal), ReorderD l (reiterD iter l)
-  | [] => .nil
-  | (k, v) :: xs => by
-    simp only [reiterD]
-    exact .cons (reorder_reiter iter hit k) (reorder_reiter iter hit v) (reorderD_reiter iter hit xs)
-end
 
 /-- The stream does not depend on the string-hash seed: a seed only changes the order in which
 sets and frozensets iterate (`iter`, an arbitrary permutation at every node), and every such
@@ -126,6 +90,85 @@ example : Reorder (.set [.int 1, .tuple [.frozenset [.int 1, .int 2]]])
   .set (l' := [.int 1, .tuple [.frozenset [.int 2, .int 1]]])
     (.cons (.int 1) (.cons (.tuple (.cons (.frozenset (ReorderL.refl _) (List.Perm.swap _ _ _)) .nil)) .nil))
     (List.Perm.swap _ _ _)
+
+/-! ## discrimination: different values, different streams -/
+
+/-- `encode_injective_partial`: two values that never take the digest fallback and have the same
+stream are two listings of the SAME value — they differ at most in the order in which the parts
+of their dicts / sets / frozensets are listed (`Reorder` to a common `u`): same types everywhere,
+same leaves, same structure.  Partial only in excluding the fallback path (where the full
+statement is false: F12). -/
+theorem encode_injective_partial (H : Bs → Bs) (v w : PyVal)
+    (hv : Plain (depth v) v) (hw : Plain (depth w) w)
+    (bv : memoCount H v ≤ 2 ^ 32) (bw : memoCount H w ≤ 2 ^ 32)
+    (h : encode H v = encode H w) : ∃ u, Reorder v u ∧ Reorder w u := by
+  have e := encode_inj H v w hv hw bv bw h
+  exact ⟨canonF (depth v) v, reorder_canonF _ v, e ▸ reorder_canonF _ w⟩
+
+/-- For values without dicts / sets / frozensets (nested lists and tuples of scalars) there is
+nothing to reorder: equal streams ⇒ equal values.  "Any differing leaf of a nested container". -/
+theorem encode_injective_ordered_partial (H : Bs → Bs) (v w : PyVal)
+    (hv : Plain (depth v) v) (hw : Plain (depth w) w) (ov : Ordered (depth v) v) (ow : Ordered (depth w) w)
+    (bv : memoCount H v ≤ 2 ^ 32) (bw : memoCount H w ≤ 2 ^ 32)
+    (h : encode H v = encode H w) : v = w := by
+  have e := encode_inj H v w hv hw bv bw h
+  rwa [canonF_ordered _ v ov, canonF_ordered _ w ow] at e
+
+/-- Type discrimination: values of different Python types never have the same stream (in
+particular list vs tuple, set vs frozenset, int vs float vs bool, str vs bytes, whatever they
+hold). -/
+theorem type_discriminating_partial (H : Bs → Bs) (v w : PyVal)
+    (hv : Plain (depth v) v) (hw : Plain (depth w) w)
+    (bv : memoCount H v ≤ 2 ^ 32) (bw : memoCount H w ≤ 2 ^ 32)
+    (ht : tyOf v ≠ tyOf w) : encode H v ≠ encode H w := by
+  intro h
+  have e := congrArg tyOf (encode_inj H v w hv hw bv bw h)
+  rw [tyOf_canonF, tyOf_canonF] at e
+  exact ht e
+
+/-- list vs tuple, whatever the (plain) contents. -/
+theorem discriminates_list_tuple (H : Bs → Bs) (l l' : List PyVal)
+    (hv : Plain (depth (.list l)) (.list l)) (hw : Plain (depth (.tuple l')) (.tuple l'))
+    (bv : memoCount H (.list l) ≤ 2 ^ 32) (bw : memoCount H (.tuple l') ≤ 2 ^ 32) :
+    encode H (.list l) ≠ encode H (.tuple l') :=
+  type_discriminating_partial H _ _ hv hw bv bw (by simp [tyOf])
+
+/-- set vs frozenset, whatever the (plain) contents — the repaired code keeps them apart. -/
+theorem discriminates_set_frozenset (H : Bs → Bs) (l l' : List PyVal)
+    (hv : Plain (depth (.set l)) (.set l)) (hw : Plain (depth (.frozenset l')) (.frozenset l'))
+    (bv : memoCount H (.set l) ≤ 2 ^ 32) (bw : memoCount H (.frozenset l') ≤ 2 ^ 32) :
+    encode H (.set l) ≠ encode H (.frozenset l') :=
+  type_discriminating_partial H _ _ hv hw bv bw (by simp [tyOf])
+
+/-- `1`, `1.0` and `True` have three different streams (BININT1 / BINFLOAT / NEWTRUE). -/
+theorem discriminates_1_1f_True (H : Bs → Bs) :
+    encode H (.int 1) ≠ encode H (.float 0x3ff0000000000000) ∧
+    encode H (.int 1) ≠ encode H (.bool true) ∧
+    encode H (.float 0x3ff0000000000000) ≠ encode H (.bool true) := by
+  have h1 : encode H (.int 1) = [128, 3, 75, 1, 46] := rfl
+  have h2 : encode H (.float 0x3ff0000000000000) = [128, 3, 71, 63, 240, 0, 0, 0, 0, 0, 0, 46] := rfl
+  have h3 : encode H (.bool true) = [128, 3, 136, 46] := rfl
+  rw [h1, h2, h3]; decide
+
+/-- `'a'` and `b'a'`. -/
+theorem discriminates_str_bytes (H : Bs → Bs) : encode H (.str [97]) ≠ encode H (.bytes [97]) := by
+  have h1 : encode H (.str [97]) = [128, 3, 88, 1, 0, 0, 0, 97, 46] := rfl
+  have h2 : encode H (.bytes [97]) = [128, 3, 67, 1, 97, 46] := rfl
+  rw [h1, h2]; decide
+
+/-- … and generally, whatever the contents. -/
+theorem discriminates_str_bytes_any (H : Bs → Bs) (s b : Bs) (hs : s.length < 2 ^ 32) (hb : b.length < 2 ^ 32) :
+    encode H (.str s) ≠ encode H (.bytes b) :=
+  type_discriminating_partial H _ _ hs hb (by simp [memoCount, depth, encF, Memo.init])
+    (by simp [memoCount, depth, encF, Memo.init]) (by simp [tyOf])
+
+/-- The hypotheses of the injectivity theorems are satisfiable by a non-trivial instance. -/
+example : Plain 3 (.dict [(.int 2, .frozenset [.str [98], .str [97]]), (.float 0x3ff0000000000000, .list [.int (-5)])]) ∧
+    memoCount (fun s => s)
+      (.dict [(.int 2, .frozenset [.str [98], .str [97]]), (.float 0x3ff0000000000000, .list [.int (-5)])]) ≤ 2 ^ 32 := by
+  refine ⟨?_, by decide +kernel⟩
+  simp [Plain, orderable, allPairs, holdsFrozenset]
+  decide +kernel
 
 /-! ## F6 — the pinned code (old-code witness; the repaired code is what the theorems above are about) -/
 section OldCode
